@@ -375,11 +375,11 @@ CloseId(g, o) == IF o.e.m.mailbox # ABSENT THEN o.e.m.mailbox ELSE g.gc[o.e.c].m
 \* with at most two sides (the closer included), not another app's id (F2)
 C08ante(g, o) ==
   LET cn == g.gc[o.e.c]  i == CloseId(g, o)  rows == MbSides(o.db, i) IN
-  /\ Carried(g, o) /\ CmdIs(o, "close")
+  /\ IsCmd(o) /\ PErrOf(g, o) = ABSENT /\ CmdIs(o, "close")     \* (an internal failure is a close that does not complete)
   /\ Cardinality({r.side : r \in rows} \cup {cn.side}) <= 2
   /\ (MbAny(o.db, i) = {} \/ HasMb(o.db, cn.app, i))
 C08a(g, o, g2) ==   \* close completes
-  C08ante(g, o) => /\ ~HasErrF(o) /\ Len(FramesTo(o, o.e.c, "closed")) = 1
+  C08ante(g, o) => /\ o.err = ABSENT /\ ~HasErrF(o) /\ Len(FramesTo(o, o.e.c, "closed")) = 1
                    /\ o.out[Len(o.out)].type = "closed"
 C08b(g, o, g2) ==   \* nothing unrelated is touched
   C08ante(g, o) => Unrelated(o.db2, g.gc[o.e.c].app, CloseId(g, o)) = Unrelated(o.db, g.gc[o.e.c].app, CloseId(g, o))
